@@ -41,11 +41,13 @@ fn distinct_strings(rng: &mut Rng, n: usize, plain: bool) -> Vec<String> {
 
 pub fn gen_spec(rng: &mut Rng, cfg: &GenCfg, depth: u32) -> spec::Node {
     let mut budget = cfg.max_nodes;
-    gen_spec_b(rng, cfg, depth, &mut budget)
+    gen_spec_b(rng, cfg, depth, &mut budget, 1)
 }
 
 /// `budget`: spec nodes that may still be created (the tree would otherwise grow super-critically at thorough widths)
-fn gen_spec_b(rng: &mut Rng, cfg: &GenCfg, depth: u32, budget: &mut u32) -> spec::Node {
+/// `mult`: how many copies of this node a value holds at least (product of the array sizes and initial map sizes
+/// above it) - arrays and initial map sizes are chosen so that a value stays below `max_value_nodes`
+fn gen_spec_b(rng: &mut Rng, cfg: &GenCfg, depth: u32, budget: &mut u32, mult: u64) -> spec::Node {
     *budget = budget.saturating_sub(1);
     let leaf_only = depth >= cfg.max_depth || *budget == 0;
     let kind = if leaf_only { rng.below(5) } else { rng.below(12) };
@@ -90,26 +92,31 @@ fn gen_spec_b(rng: &mut Rng, cfg: &GenCfg, depth: u32, budget: &mut u32) -> spec
             let n = (1 + rng.below(cfg.max_width) as usize).min(1 + *budget as usize);
             let keys = distinct_strings(rng, n, cfg.plain_keys);
             let mut map = FxHashMap::default();
-            for k in keys { map.insert(k, Box::new(gen_spec_b(rng, cfg, depth + 1, budget))); }
+            for k in keys { map.insert(k, Box::new(gen_spec_b(rng, cfg, depth + 1, budget, mult))); }
             spec::Node::Sub { map }
         }
-        7 => spec::Node::Array { value_type: Box::new(gen_spec_b(rng, cfg, depth + 1, budget)), size: 2 + rng.below(cfg.max_array - 1) as usize },
+        7 => {
+            let cap = (cfg.max_value_nodes as u64 / mult.max(1)).max(2);
+            let size = (2 + rng.below(cfg.max_array - 1)).min(cap);
+            if mult * 2 > cfg.max_value_nodes as u64 { return spec::Node::Bool { init: rng.chance(1, 2) }; }
+            spec::Node::Array { value_type: Box::new(gen_spec_b(rng, cfg, depth + 1, budget, mult * size)), size: size as usize }
+        }
         8 | 9 => {
-            let init_size = rng.below(cfg.max_map + 1) as usize;
+            let init_size = rng.below(cfg.max_map + 1).min(cfg.max_value_nodes as u64 / mult.max(1)) as usize;
             let min_size = if rng.chance(1, 2) { Some(rng.below(init_size as u64 + 1) as usize) } else { None };
             let lo = init_size.max(1).max(min_size.map(|m| m + 1).unwrap_or(0));
             let max_size = if rng.chance(1, 2) { Some(lo + rng.below(3) as usize) } else { None };
-            spec::Node::AnonMap { value_type: Box::new(gen_spec_b(rng, cfg, depth + 1, budget)), init_size, min_size, max_size }
+            spec::Node::AnonMap { value_type: Box::new(gen_spec_b(rng, cfg, depth + 1, budget, mult * (init_size.max(1) as u64))), init_size, min_size, max_size }
         }
         10 => {
             let n = 2 + rng.below(3) as usize;
             let keys = distinct_strings(rng, n, cfg.plain_keys);
             let init = keys[rng.below(n as u64) as usize].clone();
             let mut map = FxHashMap::default();
-            for k in keys { map.insert(k, Box::new(gen_spec_b(rng, cfg, depth + 1, budget))); }
+            for k in keys { map.insert(k, Box::new(gen_spec_b(rng, cfg, depth + 1, budget, mult))); }
             spec::Node::Variant { map, init }
         }
-        _ => spec::Node::Optional { value_type: Box::new(gen_spec_b(rng, cfg, depth + 1, budget)), init_present: rng.chance(1, 2) },
+        _ => spec::Node::Optional { value_type: Box::new(gen_spec_b(rng, cfg, depth + 1, budget, mult)), init_present: rng.chance(1, 2) },
     }
 }
 
